@@ -50,7 +50,7 @@ def tgt_repr(t, spec, tree):
     return None      # containers built during the call: compared by kind only
 
 
-ERR_CLASS = {'new': 'PlantedError', 'same': 'PlantedError', 'copy': 'PlantedError', 'fail': 'PlantedError', 'coalskip': 'CoalesceError', 'smiss': 'PathAccessError',
+ERR_CLASS = {'new': 'PlantedError', 'same': 'PlantedError', 'copy': 'PlantedError', 'fail': 'PlantedError', 'coalskip': 'CoalesceError', 'smiss': 'PathAccessError', 'typ': 'TypeMatchError',
              'coal': 'CoalesceError', 'switch': 'MatchError', 'not': 'MatchError', 'mdict': 'MatchError'}
 
 
@@ -70,6 +70,10 @@ def expected_projection(st, obs):
 
 def payload(v):
     return bbrepr(v).replace("\\'", "'")
+
+
+def has_kind(tree, kinds):
+    return tree['k'] in kinds or any(has_kind(c, kinds) for c in tree['c'])
 
 
 def parse_trace(msg):
@@ -209,6 +213,42 @@ def check_widths(st, obs, proj):
     for (d, k, text), line in zip(parsed2[0], parsed2[1]):
         if k == 'T' and text.startswith('t0<') and (not shows(text, full) or len(line) != TRACE_WIDTH):
             return 'a long target whose __len__ raises is not shown as a faithful truncated prefix: %r' % (text[:60],)
+    # planted errors glom() cannot copy (a GlomError subclass whose constructor does not take its .args): the
+    # original object is finalized in place; same trace, and the message still ends with type and message
+    uc = frames.execute(st['tree'], st['plan'], hook=False, uncopyable=True)
+    if uc['out'] != 'err':
+        return 'with uncopyable planted errors the call succeeded'
+    try:
+        umsg = str(uc['error'])
+    except Exception as ex:
+        return 'str(error) raised %s for an error that cannot be copied' % type(ex).__name__
+    parsed4, why4 = parse_trace(umsg)
+    if why4:
+        return why4 + ' (uncopyable errors)'
+    if [(d, k, t.replace('UncopyableError', 'PlantedError')) for d, k, t in parsed4[0]] != proj:
+        return 'an error that cannot be copied changes the lines of the trace: %s vs %s' % (parsed4[0], proj)
+    utail = umsg.split('\n')[-1]
+    if 'str() failed' in utail or (st['res']['rootn'] and st['res'].get('rootglom', True) and not utail.endswith('planted %d' % st['res']['rootn'])):
+        return 'the message of an error that cannot be copied ends with %r' % (utail,)
+    # a root target that is a collections.deque (reprlib has a limit of its own for it): shown in full
+    if not has_kind(st['tree'], ('copy', 'iter', 'consume')):
+        import collections
+        dq = frames.execute(st['tree'], st['plan'], hook=False, big_root='deque')
+        want = repr(collections.deque([frames.Tok((0, 1)), frames.Tok((0, 2)), 3, 4, 5, 6, 7, 8, 9]))
+        if dq['out'] != 'err':
+            return 'with a deque root target the call succeeded'
+        try:
+            dmsg = str(dq['error'])
+        except Exception as ex:
+            return 'str(error) raised %s for a deque root target' % type(ex).__name__
+        parsed5, why5 = parse_trace(dmsg)
+        if why5:
+            return why5 + ' (deque root target)'
+        if [(d, k) for d, k, _ in parsed5[0]] != [(d, k) for d, k, _ in proj]:
+            return 'a deque root target changes the structure of the trace'
+        for (d, k, text), (_, _, ptext) in zip(parsed5[0], proj):
+            if k == 'T' and ptext == 't0' and text != want:
+                return 'a deque root target is shown as %r, its repr %r fits the line' % (text, want)
     # errors carrying a note (PEP 678): every branch error line still shows type and message, its note follows
     nt = frames.execute(st['tree'], st['plan'], hook=False, notes=True)
     if nt['out'] != 'err':
